@@ -365,6 +365,8 @@ def run(prop, a, seed, scratch, t_start):
     # quick: no single query may take more than 10 min (the whole check should stay well under 15);
     # thorough: 4x the registered allowance, at most 1 h per query
     tmo = min(tmo, 600) if a.tier == "quick" else min(tmo * 4, 3600)
+    if os.environ.get("VERIF_TIMEOUT"):
+        tmo = int(os.environ["VERIF_TIMEOUT"])   # development aid
     log(f"[{prop}] tier={a.tier} harnesses={len(names)} jobs={jobs} per-harness timeout={tmo}s")
     # memory-aware scheduling: the sync-cache queries need 8-14 GB each, the others < 6 GB
     heavy = [h for h in names if byname[h].cost >= 120]
